@@ -125,8 +125,17 @@ static void mode_c09(const Args &a) {
         if (!a.replay.empty()) { std::ifstream in(a.replay); if (!parse_spec(in, s)) { emit_harness_failure("cannot parse replay spec"); exit(2); } }
         else {
             GenOpts o; o.max_n = max_n; o.decimal = true; o.allow_degenerate = true;
+            bool near = r.chance(0.2); if (near) o.max_n = std::min(max_n, 12);
             s = gen_graph(r, o);
-            if (r.chance(0.3)) {
+            if (near) {
+                // eight-decimal weights: a few one- or two-decimal values plus 0..11 hundred-millionths, so that alternative routes differ
+                // by 1e-8 .. 1e-7 - far above any rounding error of a double (1e-15 here), far below any weight, and with a small
+                // total (few vertices, weights <= 1), well above the 1e-9 relative tolerance of the statement
+                s.wmode = 2; s.wshift = 0; static const ll bases[] = {10000000, 20000000, 25000000, 30000000, 50000000, 70000000, 100000000};
+                ll pool[3]; for (int q = 0; q < 3; q++) pool[q] = bases[r.below(7)]; int np = (int) r.range(1, 3);
+                for (auto &e : s.edges) e.w = pool[r.below(np)] + (r.chance(0.5) ? (ll) r.below(12) : 0);
+                s.tie_rich = true; s.family += "+near_ties_1e-8";
+            } else if (r.chance(0.3)) {
                 // "arbitrary" doubles: multiples of 2^-40 with up to 50 significant bits in [1e-3, 1e3]; sums are NOT exact in double
                 s.wmode = 0; s.wshift = 40;
                 int scheme = (int) r.below(3);
@@ -143,12 +152,12 @@ static void mode_c09(const Args &a) {
         int dim = cycle_space_dim(s);
         co.hash = canon_hash(s); co.nontrivial = dim >= 2;
         co.tag(std::string("fam:") + s.family.substr(0, s.family.find('+')));
-        co.tag(s.wmode == 1 ? "weights:decimal" : "weights:binary40");
+        co.tag(s.wmode == 1 ? "weights:decimal" : s.wmode == 2 ? "weights:near_ties_1e-8" : "weights:binary40");
         if (s.tie_rich && dim >= 2) co.tag("tie_rich");
         G g; build_graph<double>(s, g); auto w = boost::get(boost::edge_weight, g);
         OracleResult orc = horton_oracle(s);
         if (!orc.ok) { emit_harness_failure("oracle failed"); exit(2); }
-        double unit = s.wmode == 1 ? 1e-3 : std::ldexp(1.0, -s.wshift);
+        double unit = s.wmode == 1 ? 1e-3 : s.wmode == 2 ? 1e-8 : std::ldexp(1.0, -s.wshift);
         std::vector<int> variants = {0, 1, 2, 3, 4, 5};
         if (!a.replay.empty() && a.opt.count("variant")) variants = {(int) a.geti("variant", 0)};
         for (int v : variants) {
